@@ -298,4 +298,30 @@ theorem c13_delta_bypasses_ownership_check (cfg : Cfg) (d : Bytes → Except Err
 
 example : resolveHashSlot demoCfg (fun _ => .ok 4) ⟨1, 4, 1, [1, 20]⟩ = .ok 4 := rfl
 
+/-! ### where the unchanged code is NOT batch-transparent (kept visible) -/
+
+/-- the batch's view of "is hash slot `hs` fenced" as `isHashSlotFenced` computes it:
+    the batch's pending migration states first, else the COMMITTED database -/
+def fenceView (pending : List (Nat × Bool)) (db : Nat → Bool) (hs : Nat) : Bool :=
+  match pending.lookup hs with
+  | some f => f
+  | none => db hs
+
+/-- `applyMigrationOutboxCleanup`: the deletion is staged in the write batch, and the
+    pending entry is ERASED (`delete(pendingStates, hashSlot)`) instead of recorded -/
+def cleanupPending (pending : List (Nat × Bool)) (hs : Nat) : List (Nat × Bool) :=
+  pending.filter (fun p => p.1 ≠ hs)
+
+/-- KNOWN FINDING `viol:batch-not-transparent:stale-fence-after-outbox-cleanup`: after a
+    cleanup that removes the migration state of a fenced hash slot, a later command of
+    the SAME batch still sees the slot fenced (committed state), while one at a time
+    (after the commit) it is not fenced — the overlay is not read-your-writes for
+    deletions, so the grouping of the log into batches decides whether that command is
+    applied.  Witness: corpus/C13/stale-fence-after-outbox-cleanup.ops. -/
+theorem c13_stale_fence_witness :
+    ∃ (db : Nat → Bool) (hs : Nat),
+      fenceView (cleanupPending [] hs) db hs = true ∧          -- in the batch: still fenced
+      fenceView [] (fun h => if h = hs then false else db h) hs = false := by  -- after the commit: not fenced
+  exact ⟨fun _ => true, 3, by decide, by decide⟩
+
 end WK.C13
